@@ -418,6 +418,137 @@ func inModel(p *pipeline.Pipeline, db bool) bool {
 	return true
 }
 
+// ---- annotations (Model/ConvAnn.v): the keys of the stream and their scope ----
+var annHostKeys = []string{"app-root"}
+var annBackKeys = []string{"balance-algorithm", "hsts-max-age"}
+var annSubset = [][]string{
+	{"app-root", "/app", "/root"},
+	{"balance-algorithm", "leastconn", "roundrobin"},
+	{"hsts-max-age", "100", "200"},
+}
+
+func coqAmap(ann map[string]string, keys []string) (string, bool) {
+	var out []string
+	for _, k := range keys {
+		if v, ok := ann[world.AnnPrefix+k]; ok {
+			out = append(out, hx.Tuple(hx.Str(k), hx.Str(v)))
+		}
+	}
+	return hx.List(out), len(out) > 0
+}
+
+func annInSubset(ann map[string]string) bool {
+	for k := range ann {
+		ok := false
+		for _, a := range annSubset {
+			if k == world.AnnPrefix+a[0] {
+				ok = true
+			}
+		}
+		if !ok {
+			return false
+		}
+	}
+	return true
+}
+
+// coqAWorld prints the cluster of Model/ConvAnn.v.
+func coqAWorld(p *pipeline.Pipeline) string {
+	var iann, sann []string
+	objs := p.Objects()
+	sort.Slice(objs, func(i, j int) bool { return p.Key(objs[i]) < p.Key(objs[j]) })
+	for _, o := range objs {
+		switch x := o.(type) {
+		case *networking.Ingress:
+			if p.IsValidIngress(x) && len(x.Annotations) > 0 {
+				h, _ := coqAmap(x.Annotations, annHostKeys)
+				b, _ := coqAmap(x.Annotations, annBackKeys)
+				iann = append(iann, hx.Tuple(hx.Str(x.Namespace+"/"+x.Name), hx.Tuple(h, b)))
+			}
+		case *api.Service:
+			if b, any := coqAmap(x.Annotations, annBackKeys); any {
+				sann = append(sann, hx.Tuple(hx.Str(x.Namespace+"/"+x.Name), b))
+			}
+		}
+	}
+	return fmt.Sprintf("{| aw_base := %s; aw_iann := %s; aw_sann := %s |}", coqWorld(p, false), hx.List(iann), hx.List(sann))
+}
+
+// coqAObs prints the resolved values of the observed keys on the real hosts and backends.
+func coqAObs(p *pipeline.Pipeline) (string, map[string]interface{}) {
+	var out []string
+	js := map[string]interface{}{}
+	hosts := p.Config().Hosts().Items()
+	backs := p.Config().Backends().Items()
+	for _, h := range obsHosts {
+		host, found := hosts[h]
+		if !found {
+			out = append(out, hx.Tuple(hx.Str(h), "None"))
+			continue
+		}
+		hkv := hx.List([]string{hx.Tuple(hx.Str("app-root"), hx.Str(host.RootRedirect))})
+		var paths []string
+		var jp []string
+		for _, hp := range host.Paths {
+			var bkv, lkv []string
+			if b := backs[hp.Backend.ID]; b != nil {
+				bkv = append(bkv, hx.Tuple(hx.Str("balance-algorithm"), hx.Str(b.BalanceAlgorithm)))
+				if bp := b.FindBackendPath(hp.Link); bp != nil {
+					lkv = append(lkv, hx.Tuple(hx.Str("hsts-max-age"), hx.Str(strconv.Itoa(bp.HSTS.MaxAge))))
+				}
+			}
+			paths = append(paths, hx.Tuple(hx.Str(hp.Path()), coqMatch(hp.Match()), hx.List(bkv), hx.List(lkv)))
+			jp = append(jp, fmt.Sprintf("%s %s %v %v", hp.Path(), hp.Match(), bkv, lkv))
+		}
+		out = append(out, hx.Tuple(hx.Str(h), fmt.Sprintf("(Some (%s, %s))", hkv, hx.List(paths))))
+		js[h] = map[string]interface{}{"app-root": host.RootRedirect, "paths": jp}
+	}
+	return hx.List(out), js
+}
+
+// inModelAnn: the feature subset of Model/ConvAnn.v.
+func inModelAnn(p *pipeline.Pipeline) bool {
+	for _, o := range p.Objects() {
+		switch x := o.(type) {
+		case *networking.Ingress:
+			if x.Spec.DefaultBackend != nil || !annInSubset(x.Annotations) {
+				return false
+			}
+		case *api.Service:
+			if !annInSubset(x.Annotations) {
+				return false
+			}
+		}
+	}
+	return true
+}
+
+// knownAnnHistory: the in-model history of the finding "a redeclared path that becomes
+// effective acquires a backend that the partial sync did not remove": ing0 owns a.example /,
+// ing1 redeclares it (service svc1, with backend annotations) and is skipped, ing2 uses svc1
+// on b.example. ing0 is deleted.
+func knownAnnHistory() [][]pipeline.Change {
+	svc1, ep1 := world.Service("ns1", "svc1", world.SvcPort{Name: "http", Port: 80, TargetPort: intstr.FromInt(8080)}),
+		world.Endpoints("ns1", "svc1", world.EpPort{Name: "http", Port: 8080, Ready: []string{"10.1.0.1"}})
+	svc2, ep2 := world.Service("ns1", "svc2", world.SvcPort{Name: "http", Port: 80, TargetPort: intstr.FromInt(9090)}),
+		world.Endpoints("ns1", "svc2", world.EpPort{Name: "http", Port: 9090, Ready: []string{"10.1.0.2"}})
+	rule := func(host, svc string) world.IngRule {
+		return world.IngRule{Host: host, Paths: []world.IngPath{{Path: "/", Type: "Prefix", Service: svc, PortNum: 80}}}
+	}
+	ing0 := world.Ingress("ns1", "ing0", 1, rule("a.example", "svc2"))
+	ing1 := world.Ingress("ns1", "ing1", 5, rule("a.example", "svc1"))
+	ing1.Annotations = map[string]string{world.AnnPrefix + "balance-algorithm": "leastconn", world.AnnPrefix + "hsts-max-age": "100"}
+	ing2 := world.Ingress("ns1", "ing2", 9, rule("b.example", "svc1"))
+	mk := func(op pipeline.Op, o ...client.Object) []pipeline.Change {
+		var out []pipeline.Change
+		for _, x := range o {
+			out = append(out, pipeline.Change{Op: op, Obj: x})
+		}
+		return out
+	}
+	return [][]pipeline.Change{mk(pipeline.Create, svc1, ep1, svc2, ep2, ing0, ing1, ing2), mk(pipeline.Delete, ing0)}
+}
+
 // knownDefaultBackendHistory is the minimal in-model history of the known finding
 // C01/ingress-default-backend-not-pretracked: ingress ing2 owns the root path of the
 // default host through its spec.defaultBackend; ing1, which sorts before it, is created
@@ -470,7 +601,7 @@ func main() {
 		}
 	}
 	nOracle := o.Count(80, 4000)
-	nCorr := o.Count(60, 1500)
+	nCorr := o.Count(45, 1500)
 	if o.Search {
 		nOracle, nCorr = o.Count(600, 8000), 0
 	}
@@ -539,10 +670,14 @@ func main() {
 	// ---- correspondence ----
 	// stream 1: the feature subset of Model/Conv.v; stream 2: with spec.defaultBackend,
 	// against Model/ConvDB.v, the in-model history of the known finding first
-	runCorr := func(h [][]pipeline.Change, db bool, sample bool) {
+	runCorr := func(h [][]pipeline.Change, db bool, sample bool, annArg ...bool) {
+		ann := len(annArg) > 0 && annArg[0]
 		tag := "corr"
 		if db {
 			tag = "corrdb"
+		}
+		if ann {
+			tag = "corrann"
 		}
 		dir := filepath.Join(workdir, "c")
 		os.RemoveAll(dir)
@@ -559,15 +694,23 @@ func main() {
 				ok = false
 				break
 			}
-			if len(p.Last.Runs) != 1 || !inModel(p, db) {
+			if len(p.Last.Runs) != 1 || (!ann && !inModel(p, db)) || (ann && !inModelAnn(p)) {
 				ok = false
 				break
 			}
 			run := p.Last.Runs[0]
 			obs, jobs := coqObs(p)
 			w := coqWorld(p, db)
+			if ann {
+				w = coqAWorld(p)
+				aobs, ajobs := coqAObs(p)
+				obs = obs + ", " + aobs
+				jobs["annotations"] = ajobs
+			}
 			if bi == 0 {
-				if db {
+				if ann {
+					steps = append(steps, "(AFull "+w+", "+obs+")")
+				} else if db {
 					steps = append(steps, hx.Tuple("DFull "+w, obs))
 				} else {
 					steps = append(steps, hx.Tuple("SFull "+w, obs))
@@ -582,7 +725,9 @@ func main() {
 					ok = false
 					break
 				}
-				if db {
+				if ann {
+					steps = append(steps, "(APartial "+w+" "+bt+", "+obs+")")
+				} else if db {
 					steps = append(steps, hx.Tuple("DPartial "+w+" "+bt, obs))
 				} else {
 					steps = append(steps, hx.Tuple("SPartial "+w+" "+bt, obs))
@@ -613,6 +758,9 @@ func main() {
 		}
 		st := steps
 		cw.Add(func(id int) string {
+			if ann {
+				return fmt.Sprintf("CA {| xid := %s; xsteps := %s |}", hx.N(id), hx.List(st))
+			}
 			if db {
 				return fmt.Sprintf("CD {| did := %s; dsteps := %s |}", hx.N(id), hx.List(st))
 			}
@@ -634,12 +782,31 @@ func main() {
 			res.Count("corrdb_known_finding_does_not_diverge")
 		}
 		runCorr(kh, true, true)
-		nDB := o.Count(40, 1000)
+		nDB := o.Count(30, 1000)
 		for i := 0; i < nDB; i++ {
 			cfg := modelConfig()
 			cfg.DefaultBackend = true
 			runCorr(world.GenHistory(rng, cfg, 1+rng.Intn(5), 3), true, i < 1)
 		}
+		// stream 3: annotations (three keys: host-scoped app-root, backend-scoped
+		// balance-algorithm, per-path hsts-max-age) against Model/ConvAnn.v; first the
+		// in-model history of the finding, which must diverge on the real code
+		ka := knownAnnHistory()
+		if idx, _, err := diverges(ka, false, "kann"); err == nil && idx >= 0 {
+			res.Count("corrann_known_finding_diverges_on_real_code")
+		} else {
+			res.Count("corrann_known_finding_does_not_diverge")
+		}
+		runCorr(ka, false, true, true)
+		saved := world.AnnWhitelist
+		world.AnnWhitelist = annSubset
+		nAnn := o.Count(30, 1000)
+		for i := 0; i < nAnn; i++ {
+			cfg := modelConfig()
+			cfg.Annotations = true
+			runCorr(world.GenHistory(rng, cfg, 1+rng.Intn(5), 3), false, i < 1, true)
+		}
+		world.AnnWhitelist = saved
 	}
 	// ---- the tracker alone ----
 	if o.Replay == "" {
